@@ -218,10 +218,19 @@ func expected(ops []string) map[string]bool {
 		for _, alias := range mayRunAs[o] {
 			addOp(alias)
 		}
+		// the set-up of the icmp6 handler hunts one host (so that the RA wake-up path is live): its spoof loop runs;
+		// every child ends by closing its handlers and the session (background goroutines may still run then)
+		if d := findOp(o); d != nil && d.needs != "" {
+			if d.needs == "icmp6" {
+				addOp("icmp6.StartHunt")
+			}
+			addOp(d.needs + ".Close")
+		}
 	}
 	for _, o := range ambientOps {
 		addOp(o)
 	}
+	addOp("Close")
 	exp := map[string]bool{}
 	for _, a := range all {
 		for _, b := range all {
@@ -236,8 +245,10 @@ func expected(ops []string) map[string]bool {
 var mayRunAs = map[string][]string{"Parse.fast": {"Parse.slow"}, "Parse.slow": {"Parse.fast"}}
 
 // consequence: observations that are effects of a predicted race rather than detector reports.
-//   fatal:<op>:<field>:concurrent-map-access  <- a predicted race of <op> on the map <field>
-//   invariant:online-host-offline-mac         <- a predicted race on MACEntry.Online (makeOffline's scan vs onlineTransition)
+//
+//	fatal:<op>:<field>:concurrent-map-access  <- a predicted race of <op> on the map <field>
+//	invariant:online-host-offline-mac         <- a predicted race on MACEntry.Online (makeOffline's scan vs onlineTransition)
+//
 // Returns the predicted key that explains k, or "".
 func consequence(k string, exp map[string]bool) string {
 	var fields []string
@@ -350,6 +361,10 @@ func (p *parent) runMix(ops []string, seed uint64, verbose bool) string {
 	var unexpected []string
 	keys := obs.sortedKeys()
 	for _, k := range keys {
+		if strings.HasPrefix(k, "note:") {
+			p.r.Stat(k, 1)
+			continue
+		}
 		if strings.HasPrefix(k, "race-ambiguous:") {
 			// the report names a line with several fields, all of which the model predicts for this pair
 			p.r.Stat("races.ambiguous", 1)
